@@ -111,7 +111,7 @@ fn fresh_blocker(e: &'static Engine, workers: usize, timeout_ns: u64, ignore_can
     e.begin();
     let c = go!(move || {
         let b = Arc::new(Blocker::new(ignore_cancel));
-        *SLOT.lock().unwrap() = Some(b.clone());
+        *SLOT.lock().unwrap_or_else(|e| e.into_inner()) = Some(b.clone());
         READY.store(true, Ordering::SeqCst);
         let t0 = may::verif::now();
         let r = match std::panic::catch_unwind(std::panic::AssertUnwindSafe(|| b.park(if timeout { Some(Duration::from_nanos(timeout_ns)) } else { None }))) {
@@ -134,7 +134,7 @@ fn fresh_blocker(e: &'static Engine, workers: usize, timeout_ns: u64, ignore_can
         Partner::Nothing => {}
         Partner::Unpark | Partner::UnparkAndCancel => {
             e.wait_flag(&READY);
-            let b = SLOT.lock().unwrap().take().unwrap();
+            let b = SLOT.lock().unwrap_or_else(|e| e.into_inner()).take().unwrap();
             b.unpark();
             if partner == Partner::UnparkAndCancel {
                 cancelled = true;
